@@ -77,6 +77,31 @@ CHECKS["C03"] = dict(
          "with write failures, cancellations and an epilogue request that must be written and answered.",
     note=HISTORY_NOTE, design="4/C03")
 
+CHECKS["C04"] = dict(
+    technique="Rocq theorems (evaluator = declarative Draft-04; call/result guards) + verdict correspondence over all 206 schemas",
+    text="C04_independent_oracle (violations = [] <-> Valid, all schemas and instances), C04_accept_iff_valid, C04_no_crash "
+         "(every shipped action's schemas are crash-free; table theorem re-checked each run), C04_call_guard_reject/accept and "
+         "C04_result_guard over the call and dispatch models. Tied by per-constraint instances for every schema file judged "
+         "by _validate_payload, by the model, by construction and by a fresh independent Draft4Validator; then through "
+         "call() and route_message on real endpoints.",
+    note="Trusted: Coq kernel + VM, translator (schemas), the instance generator (bounds what is exercised), jsonschema as "
+         "the library's evaluator (compared, not verified). Numbers: decimal model, correspondences use <= 15 significant digits.",
+    design="4/C04")
+CHECKS["C08"] = dict(
+    technique="Rocq theorems (round trip, shape, total classification of unpack at the value level) + exhaustive array tally",
+    text="C08_roundtrip, C08_shape, C08_total_classified for every parsed value / every message. Tied by the exhaustive "
+         "family of arrays over a 10-element alphabet (tallied inside Coq and through the real unpack), malformed/hostile "
+         "str and bytes frames, and random messages through pack and back. PARTIAL: the text layer (json.loads/dumps) is "
+         "CPython's and enters as the parsed value or the 'raised' outcome.",
+    note="Trusted: Coq kernel + VM, CPython json at the text level, the hand model of unpack/to_json (compared).", design="4/C08")
+CHECKS["C18"] = dict(
+    technique="Rocq theorem by induction over the frame list (start = in-order concatenation, ends only with recv) + loop correspondence",
+    text="C18_in_order / C18_only_recv_ends_it: for every frame list the events of start() are, frame by frame, the receive "
+         "followed by that frame's complete processing, and the only end is the propagation of recv's exception (using C01's "
+         "no-escape for each frame). Tied by the real start() on scripted connections with slow handlers, hostile frames, "
+         "recv failures of several exception types (identity checked), optionally while the send gate is held.",
+    note=DISPATCH_NOTE, design="4/C18")
+
 PENDING_REASON = "check not built yet in this round (work in progress; see DESIGN.md section 9)"
 
 
